@@ -293,6 +293,14 @@ def main(tier):
         rp = os.path.join(common.VERIF, f["replay"][PROP])
         v, d = oracle(ctx, open(rp, "rb").read(), "fixed.nano")
         ev.cls("fixed_regression_replayed")
+        if v != "violation" and f.get("valgrind"):
+            # reads of uninitialised memory only show under the sanitizers when the garbage happens to be a bad pointer
+            plain = runner.Tools("plain")
+            rcv, ov, evv, tov = common.run(["valgrind", "-q", "--error-exitcode=97", plain.virt, rp, "--emit-nvm", "-o", os.path.join(ctx.dir, "vg.nvm")],
+                                           timeout=300, cwd=ctx.dir, env=plain.env)
+            ev.cls("fixed_regression_replayed_memcheck")
+            if rcv == 97 and b"uninitialised" in evv:
+                v, d = "violation", "memcheck: " + evv.split(b"\n")[0].decode("utf-8", "replace")[:200]
         if v == "violation":
             print("C09: fixed finding %s is back: %s" % (f["id"], d))
             common.report_violation(PROP, rp)
